@@ -220,4 +220,24 @@ func StoreOpensWithSyncWrites() {
 	vsym.Reach("opened")
 	_ = svc
 	vsym.Assert("O1-sync-writes-on-every-open", vsym.ModelAllOpensSynced())
+	vsym.Assert("O2-directory-lock-guard-kept-on-every-open", vsym.ModelOpensKeepLockGuard())
+}
+
+// SecondInstanceRefused: the records of a key have one reader and writer.  While one instance has the
+// store open, a second instance on the same directory (an overlapping restart, a unit started twice,
+// the import command run against a live daemon) does not come up; it does once the first has closed.
+func SecondInstanceRefused() {
+	ctx := context.Background()
+	dir := vsym.TempDir("A")
+	first, err := standardrules.New(ctx, standardrules.WithStoragePath(dir))
+	hc.Must(err)
+	vsym.SetFaults(1) // e.g. the first attempt to open fails and the fallback path is taken
+	second, err2 := standardrules.New(ctx, standardrules.WithStoragePath(dir))
+	vsym.SetFaults(0)
+	vsym.Assert("O3-no-second-instance-on-an-open-store", err2 != nil || second == nil)
+	vsym.Assert("O2-directory-lock-guard-kept-on-every-open", vsym.ModelOpensKeepLockGuard())
+	hc.Must(first.Close(ctx))
+	third, err3 := standardrules.New(ctx, standardrules.WithStoragePath(dir))
+	vsym.Assert("O4-restart-after-close-comes-up", err3 == nil && third != nil)
+	vsym.Reach("second-instance-probed")
 }
